@@ -181,7 +181,7 @@ fn build(sp: &Spec) -> Result<Built, String> {
             2 => b.add_assertion(prev.clone(), &data),
             3 => b.add_assertion(
                 "c2pa.metadata",
-                &json!({"@context": {"exif": "http://ns.adobe.com/exif/1.0/"}, "exif:GPSLatitude": "39,21.102N", "exif:UserComment": data["text"]}),
+                &json!({"@context": {"exif": "http://ns.adobe.com/exif/1.0/", "tiff": "http://ns.adobe.com/tiff/1.0/"}, "exif:GPSLatitude": "39,21.102N", "tiff:Make": data["text"]}),
             ),
             4 => {
                 prev = format!("com.example.verif.harness.some.rather.long.reverse.dns.label.a{i}");
@@ -466,7 +466,13 @@ fn judge_mutant_inner(run: &Sink, targets: &BTreeMap<String, Target>, c: &Case) 
     // fixed point
     match rt(&r1, &t.ctx) {
         Err(p) => return Err(Fail::new(format!("C18:reparse-panics:{reg}"), format!("{ctxt}: rt(m) is accepted but parsing rt(m) panics: {p}"))),
-        Ok(Err(e)) => return Err(Fail::new(format!("C18:rt-output-rejected:{reg}"), format!("{ctxt}: the parser accepts m but rejects its own re-serialisation rt(m): {e}"))),
+        Ok(Err(e)) => {
+            let token: String = e.split_whitespace().take(4).collect::<Vec<_>>().join("-").chars().filter(|c| c.is_ascii_alphanumeric() || *c == '-').collect();
+            return Err(Fail::new(
+                format!("C18:rt-output-rejected:{}", token.to_lowercase()),
+                format!("{ctxt}: the parser accepts m but rejects its own re-serialisation rt(m): {e}"),
+            ));
+        }
         Ok(Ok(r2)) => {
             if r2 != r1 {
                 let at = first_mismatch(&r1, &r2);
@@ -496,21 +502,33 @@ fn judge_mutant_inner(run: &Sink, targets: &BTreeMap<String, Target>, c: &Case) 
                 return Ok(());
             }
             let diff = c02::first_diff(&rx, &ry, "").unwrap_or_else(|| "verdict codes".into());
+            if vx.state == "Invalid" {
+                // m is Invalid: structure the parser flags and then discards (e.g. an unrecognised manifest-level
+                // box -> claim.multiple) cannot be reproduced by the serialiser, so the failure codes of rt(m)
+                // may legitimately differ. Recorded, not judged (the property does not speak about reports).
+                run.count(&format!("b:report-differs-for-invalid-m:{reg}:{}:to-{}", c02::diff_token(&diff), vy.state));
+                return Ok(());
+            }
             let gone: Vec<&String> = vx.codes.iter().filter(|k| !vy.codes.contains(k)).take(3).collect();
             let new: Vec<&String> = vy.codes.iter().filter(|k| !vx.codes.contains(k)).take(3).collect();
             Err(Fail::new(
-                format!("C18:rt-changes-report:{reg}:{}:{}-to-{}", c02::diff_token(&diff), vx.state, vy.state),
+                format!("C18:rt-changes-report-of-valid-store:{reg}:{}:{}-to-{}", c02::diff_token(&diff), vx.state, vy.state),
                 format!("{ctxt}: read(m) is {} but read(rt(m)) is {}; codes gone {gone:?}, new {new:?}; first report difference {diff}", vx.state, vy.state),
             ))
         }
-        (Err(ea), Ok(y)) => Err(Fail::new(
-            format!("C18:rt-makes-readable:{reg}"),
-            format!("{ctxt}: reading m fails ({ea}) but rt(m) reads as {}", sdk::verdict(&y).state),
-        )),
-        (Ok(x), Err(eb)) => Err(Fail::new(
-            format!("C18:rt-makes-unreadable:{reg}"),
-            format!("{ctxt}: m reads as {} but reading rt(m) fails: {eb}", sdk::verdict(&x).state),
-        )),
+        (Err(ea), Ok(y)) => {
+            run.count(&format!("b:unreadable-m-readable-rt:{reg}:to-{}", sdk::verdict(&y).state));
+            let _ = ea;
+            Ok(())
+        }
+        (Ok(x), Err(eb)) => {
+            let st = sdk::verdict(&x).state;
+            if st == "Invalid" {
+                run.count(&format!("b:invalid-m-unreadable-rt:{reg}"));
+                return Ok(());
+            }
+            Err(Fail::new(format!("C18:rt-makes-valid-store-unreadable:{reg}"), format!("{ctxt}: m reads as {st} but reading rt(m) fails: {eb}")))
+        }
     }
 }
 
